@@ -150,7 +150,7 @@ def errors_consulted(ctx):
         return
     for law, (key, text, why) in MISS_LAWS.items():
         ps = problems[law]
-        ctx.ob(f"{miss.key}:{key}", miss.loc(), f"{text} (miss handler abstractly executed on 9 lookups)", not ps, "; ".join(ps[:2]) + ": " + why)
+        ctx.ob(f"{miss.key}:{key}", miss.loc(), f"{text} (miss handler abstractly executed on 11 lookups)", not ps, "; ".join(ps[:2]) + ": " + why)
 
 
 def _errors_consulted_shape(ctx):
